@@ -79,6 +79,8 @@ type c03facts struct {
 	segSeedInc      bool
 	segIDsByAdd     int // sites that take a new id by atomic.AddUint64(&s.nextSegmentID, 1)
 	segIDsOther     []string
+	listSegErrRet   bool // OpenWriter: `…, err := directory.List(ItemKindSegment)` is directly followed by `if err != nil { … return }`
+	skippedMergeNil bool // mergeSegmentBases: on the skipped branch the post-merge snapshot is closed and `newSnapshot = nil`
 }
 
 func extractC03(c *Ctx) c03facts {
@@ -199,6 +201,9 @@ func extractC03(c *Ctx) c03facts {
 			if len(x.Rhs) == 1 {
 				if call, ok := x.Rhs[0].(*ast.CallExpr); ok && strings.HasSuffix(selName(call.Fun), ".directory.List") && len(call.Args) == 1 && len(x.Lhs) >= 1 {
 					listVar[selName(x.Lhs[0])] = selName(call.Args[0])
+					if selName(call.Args[0]) == "ItemKindSegment" {
+						f.listSegErrRet = isErrCheckReturning(stmtAfter(ow.Body, call.Pos()))
+					}
 				}
 			}
 			if len(x.Lhs) == 1 && strings.HasSuffix(selName(x.Lhs[0]), ".nextSegmentID") && len(x.Rhs) == 1 {
@@ -256,6 +261,30 @@ func extractC03(c *Ctx) c03facts {
 				}
 			}
 		}
+	}
+	// mergeSegmentBases: `if mergeTaskIntroStatus.skipped { _ = newSnapshot.Close(); …; newSnapshot = nil }`
+	if mb := idx.Func("Writer.mergeSegmentBases"); mb != nil {
+		ast.Inspect(mb.Body, func(m ast.Node) bool {
+			is, ok := m.(*ast.IfStmt)
+			if !ok || !strings.HasSuffix(selName(is.Cond), ".skipped") {
+				return true
+			}
+			closes, nils := false, false
+			for _, st := range is.Body.List {
+				if as, ok := st.(*ast.AssignStmt); ok && len(as.Lhs) == 1 && len(as.Rhs) == 1 {
+					if selName(as.Lhs[0]) == "newSnapshot" && selName(as.Rhs[0]) == "nil" {
+						nils = true
+					}
+					if call, ok := as.Rhs[0].(*ast.CallExpr); ok && selName(call.Fun) == "newSnapshot.Close" {
+						closes = true
+					}
+				}
+			}
+			f.skippedMergeNil = closes && nils
+			return false
+		})
+	} else {
+		c.Refuse("index: mergeSegmentBases not found")
 	}
 	sort.Strings(f.segIDsOther)
 	return f
@@ -525,6 +554,8 @@ func genC03(c *Ctx) {
 	fmt.Fprintf(&b, "/-- OpenWriter: nextSegmentID is seeded from the listing of this kind, by this expression, then incremented -/\ndef segSeedList : String := %s\ndef segSeedExpr : String := %s\ndef segSeedInc : Bool := %s\n",
 		LeanStr(f.segSeedList), LeanStr(f.segSeedExpr), leanBool(f.segSeedInc))
 	fmt.Fprintf(&b, "/-- every other use of nextSegmentID is `atomic.AddUint64(&s.nextSegmentID, 1)` -/\ndef segIDsByAdd : Nat := %d\ndef segIDsOther : List String := %s\n", f.segIDsByAdd, leanStrs(f.segIDsOther))
+	fmt.Fprintf(&b, "/-- mergeSegmentBases: when the introducer skipped the merge, the post-merge snapshot is closed and nil is returned -/\ndef skippedMergeReturnsNil : Bool := %s\n", leanBool(f.skippedMergeNil))
+	fmt.Fprintf(&b, "/-- OpenWriter: the error of List(ItemKindSegment) is tested and returned before err is assigned again -/\ndef listSegmentsErrReturned : Bool := %s\n", leanBool(f.listSegErrRet))
 	writeC14Defs(&b, g)
 	b.WriteString("\nend BlugeGen.C03\n")
 	c.WriteLean("C03", b.String())
